@@ -18,9 +18,11 @@ import GunYu.Model.Checkpoint
 import GunYu.Proofs.Checkpoint
 import GunYu.Proofs.CheckpointOps
 import GunYu.Proofs.CheckpointUpdate
+import GunYu.Proofs.CheckpointMigrate
+import GunYu.Gen.CheckpointConsts
 
 namespace GunYu.Props.C17
-open GunYu GunYu.Checkpoint
+open GunYu GunYu.Checkpoint GunYu.Migrate
 
 /-- `UpdateCheckpoint` (renaming the checkpoint key and/or moving it to a new
     replication id), stopped after ANY number `k` of its write requests, leaves a
@@ -105,6 +107,51 @@ theorem gc_passes_exceptNewest (live : List Bytes) (before : Int) (t : Target) (
       = (delStale t cpn rid before (live.contains rid) (orders.headD [])).2.2 ++ tail := by
   simp only [gcLoop, List.append_assoc]
   exact ⟨_, rfl⟩
+
+/-- Switching the bidirectional recovery format (`resolveBisyncCheckpointNameWithClient`:
+    mode inference, in-place switch, or migration to a freshly seeded namespace with
+    repointing of the checkpoint hash and clean-up of the old namespace), stopped after ANY
+    number of its requests to the checkpoint hash / the root keys, leaves a target on which
+    the next start reads a position that is not smaller, in the same database (0, where
+    bidirectional namespaces keep their root checkpoint).
+
+    `ns` = recovery state of the old namespace (any), `nows` = the clock values used,
+    `order` = database order of the operation's `GetCheckpoint`, `oS` = of the next start.
+    Preconditions (`MigPre`): ids distinct, non-empty, not "?" and not a prefix-match of
+    "bisync_mode"; the hash resolves to root key `n` holding `X ≥ 0` in database 0 (`Holds`);
+    `_runid` fields store their own id; the freshly drawn name is new (no field of the ids,
+    different from `n` and `n:frontier`); stored offsets / clock values are int64. -/
+theorem migrate_prefix_safe (ver id1 id2 n r newName : Bytes) (t₀ : Target) (ns : Frontier.NS) (X : Int)
+    (nows : List Int) (P : MigPre ver id1 id2 n r newName t₀ ns X nows) (desired : BMode)
+    (order oS : List Nat) (ho : 0 ∈ order) (hoS : 0 ∈ oS) (k : Nat) :
+    ∃ X', X ≤ X' ∧
+      startPoint ver [id1, id2] oS
+        (applyAll t₀ ((migrateReqs ver t₀ ns [id1, id2] desired newName nows order).take k))
+        = some (some (X', 0)) := by
+  obtain ⟨pre, core, heq, hpre, hcore⟩ := migrateReqs_form P order ho desired
+  rw [heq]
+  exact (minv_pre_core P.args ⟨P.hn, P.holds, P.fresh⟩ pre core hpre hcore k).startPoint
+    P.hn0 P.args.hnew0 ver oS hoS
+
+/-- what the scan calls "newest": no database it visited reads a larger offset for the id,
+    and (when anything was read) `newestDb` is a visited database reading exactly it -/
+theorem gc_newest_is_largest (t : Target) (name rid : Bytes) (order : List Nat) (s : StaleScan)
+    (h : staleScan t name rid order = some s) : ScanMax t name rid order s :=
+  staleScan_max t name rid order s h
+
+/-- the literal names the models use are those of the Go source (regenerated each run by
+    harness/extract/c17.go into Gen/CheckpointConsts.lean) -/
+theorem consts_match_source :
+    Migrate.modeField = Gen.bisyncModeField ∧
+    Gen.bisyncModeMtimeField = Gen.bisyncModeField ++ Gen.cpSuffixMtime ∧
+    BMode.bytes .sync = Gen.bisyncModeSync ∧ BMode.bytes .pipeline = Gen.bisyncModePipeline ∧
+    BMode.bytes .parallel = Gen.bisyncModeParallel ∧
+    (∀ n, Migrate.frontierKey n = n ++ Gen.bisyncFrontierSuffix) ∧
+    -- the four suffixes are pairwise not suffixes of one another (field names parse uniquely)
+    (∀ a ∈ [Gen.cpSuffixRunId, Gen.cpSuffixVersion, Gen.cpSuffixOffset, Gen.cpSuffixMtime],
+      ∀ b ∈ [Gen.cpSuffixRunId, Gen.cpSuffixVersion, Gen.cpSuffixOffset, Gen.cpSuffixMtime],
+        a ≠ b → ¬ a.isSuffixOf b = true) := by
+  refine ⟨by decide, by decide, by decide, by decide, by decide, fun n => rfl, by decide⟩
 
 /-! ### non-vacuity: a concrete state meeting the preconditions
 
@@ -201,5 +248,63 @@ def exTie : Target :=
 example : startPoint [49] [exId1, exId2] [5, 2] exTie = some (some (100, 2)) := by decide
 example : startPoint [49] [exId1, exId2] [5, 2]
     (applyAll exTie (gcReqs exTie [exId1, exId2] 20 [[5, 2]])) = some (some (100, 5)) := by decide
+
+/-! ### non-vacuity of `migrate_prefix_safe`: sync → parallel with a root checkpoint (700)
+    newer than the latest record (650): 4 requests, the new namespace is seeded with 700 -/
+def exM : Target :=
+  { hash := [(exId1, exCp)],
+    cps := fun db n => if n = exCp ∧ db = 0 then
+      [⟨exId1, .runid, exId1⟩, ⟨exId1, .offset, [55, 48, 48]⟩, ⟨modeField, .other, BMode.bytes .sync⟩]
+      else [] }
+def exNs : Frontier.NS := { latest := some { seq := 4, endOff := 650, mtime := 3, runId := exId1 } }
+def exNew : Bytes := [100]
+
+theorem exM_cps (db : Nat) : exM.cps db exCp = if db = 0 then
+    [⟨exId1, .runid, exId1⟩, ⟨exId1, .offset, [55, 48, 48]⟩, ⟨modeField, .other, BMode.bytes .sync⟩] else [] := by
+  simp [exM]
+
+theorem exM_pre : MigPre [49] exId1 exId2 exCp exId1 exNew exM exNs 700 [5, 6] :=
+  { args := ⟨by decide, by decide, by decide, by decide, by decide, by decide, by decide⟩,
+    h2 := by decide, hn := by decide, hn0 := by decide,
+    holds := by
+      refine ⟨by decide, ?_, by rw [exM_cps]; decide, by rw [exM_cps]; decide, ?_⟩
+      · intro db e he _ hk
+        rw [exM_cps] at he
+        split at he
+        · simp only [List.mem_cons, List.not_mem_nil, or_false] at he
+          rcases he with rfl | rfl | rfl <;>
+            first | decide | (rcases hk with hk | hk <;> exact absurd hk (by decide))
+        · exact absurd he (List.not_mem_nil)
+      · intro db hdb x hx
+        rw [exM_cps] at hx
+        simp only [hdb, if_false] at hx
+        exact absurd hx (List.not_mem_nil),
+    own := by
+      intro db e he hk
+      rw [exM_cps] at he
+      split at he
+      · simp only [List.mem_cons, List.not_mem_nil, or_false] at he
+        rcases he with rfl | rfl | rfl <;> first | rfl | exact absurd hk (by decide)
+      · exact absurd he (List.not_mem_nil),
+    fresh := by intro db e he; simp [exM, exNew, exCp] at he,
+    seedRange := by
+      intro cur sd h
+      cases cur with
+      | sync =>
+        have : loadSeed [49] exNs [exId1, exId2] .sync = some ⟨exId1, 4, 650, 3⟩ := by decide
+        rw [this] at h; simp only [Option.some.injEq] at h; subst h; decide
+      | pipeline =>
+        have : loadSeed [49] exNs [exId1, exId2] .pipeline = none := by decide
+        rw [this] at h; exact absurd h (by simp)
+      | parallel =>
+        have : loadSeed [49] exNs [exId1, exId2] .parallel = none := by decide
+        rw [this] at h; exact absurd h (by simp),
+    nowsRange := by intro x hx; simp only [List.mem_cons, List.not_mem_nil, or_false] at hx
+                    rcases hx with rfl | rfl <;> decide }
+
+example : (migrateReqs [49] exM exNs [exId1, exId2] .parallel exNew [5, 6] [0]).length = 4 := by decide
+example : startPoint [49] [exId1, exId2] [0]
+    (applyAll exM ((migrateReqs [49] exM exNs [exId1, exId2] .parallel exNew [5, 6] [0]).take 3))
+    = some (some (700, 0)) := by decide
 
 end GunYu.Props.C17
